@@ -16,7 +16,10 @@ def check(ctx):
         "Pending; R3 every non-cleanup drop of the taken span is reachable only through a release of the guard "
         "(Drop terminator or move into mem::drop); R4 the wrapped future is declared before the span (drop order); R5 "
         "Span::set_local_parent opens a scope on every path (also for a span whose trace is not sampled: the scope is what "
-        "masks the thread's previous local parent during the poll).")
+        "masks the thread's previous local parent during the poll); R6 what a poll attaches to the bound span waits for that span's "
+        "record in the trace's own parked-attachments map (the span's record arrives only at completion, the attachments at "
+        "the end of each poll); R7 a scope records iff any item of its token is sampled (a span with parents in a sampled "
+        "and an unsampled trace is an effective local parent).")
     ctx.not_decided = ("migration between threads, restoration of the previous context (C10), one local span per "
                        "poll as a count, delivery of what was recorded (C01/C03).")
     facts = ctx.facts("E")
@@ -32,3 +35,8 @@ def check(ctx):
     # "has that span as local parent during every poll" also for a span that is not sampled: the scope must be opened
     from .. import scopes
     scopes.rule_scope_always_opened(ctx, facts, "R5")
+    from .. import collector, provrules
+    c = collector.Collector(ctx, facts)
+    if c.need("R6"):
+        collector.rule_danglings_arg(ctx, c, "R6")
+    provrules.rule_scope_sampling(ctx, facts, "R7")
